@@ -161,3 +161,28 @@ func BadRecEscape(n int) int {
 	g(n)
 	return total
 }
+
+// a backward goto
+func BadGotoBack(n int) int {
+	i := 0
+loop:
+	i++
+	if i < n {
+		goto loop
+	}
+	return i
+}
+
+// goto out of a loop that is not a pure search loop
+func BadGotoLoop(xs []int, v int) int {
+	k := 0
+	for _, x := range xs {
+		if x == v {
+			goto found
+		}
+		k++
+	}
+	k = -1
+found:
+	return k
+}
